@@ -16,7 +16,7 @@
    as [delete_topic_metrics_v0], [sys_storage_v0], [scrape_v0] (nil_end_panics) for the _refuted witnesses.
    Gauge values are float64 in Go; the model keeps the exact integer, the float64 conversion is applied when
    model and implementation are compared (checks/c17.py). *)
-From Coq Require Import ZArith List Bool.
+From Coq Require Import ZArith List Bool String.
 From Burrow Require Import Int64 F32 Eval AMap Ring Storage.
 Import ListNotations.
 Open Scope Z_scope.
@@ -441,3 +441,43 @@ Definition json_status (sc : sconfig) (now : Z) (sy : sys) (c g : Z) (show_all :
   | Some (sy', Some gs) => Some (sy', Some (if show_all then gs else filter_view gs))
   | Some (sy', None) => Some (sy', None)
   end.
+
+(* ---------- regenerated tables (translator/jsontags -> gen/JsonTags.v) ---------- *)
+(* a function of cluster / consumer / storage / httpserver that builds a StorageSetDeleteTopic / StorageSetDeleteGroup request:
+   the Cluster / Group / Topic expressions of the literal and the httpserver.Delete*Metrics calls of the same function *)
+Record site := mkSite {
+  site_fn : string; site_req : string; site_cluster : string; site_group : string; site_topic : string;
+  site_calls : list string }.
+
+(* topic series are deleted nowhere but at the site that tells storage to delete the topic: it must call
+   DeleteTopicMetrics for the same cluster and topic (group series are also deleted by storage's own deleteGroup) *)
+Definition topic_site (s : site) : bool := String.eqb (site_req s) "StorageSetDeleteTopic".
+Definition wanted_call (s : site) : string :=
+  ("DeleteTopicMetrics(" ++ site_cluster s ++ ", " ++ site_topic s ++ ")")%string.
+Definition site_ok (s : site) : bool :=
+  if topic_site s then existsb (String.eqb (wanted_call s)) (site_calls s) else true.
+Definition sites_ok (l : list site) : bool := existsb topic_site l && forallb site_ok l.
+
+(* the JSON keys the property's fields are served under (core/protocol/storage.go, evaluator.go) *)
+Definition required_tags : list (string * string * string) :=
+  [("ConsumerOffset", "Offset", "offset"); ("ConsumerOffset", "Timestamp", "timestamp");
+   ("ConsumerOffset", "ObservedTimestamp", "observedAt"); ("ConsumerOffset", "Lag", "lag"); ("ConsumerOffset", "Order", "-");
+   ("ConsumerPartition", "Offsets", "offsets"); ("ConsumerPartition", "BrokerOffsets", "-");
+   ("ConsumerPartition", "Owner", "owner"); ("ConsumerPartition", "ClientID", "client_id");
+   ("ConsumerPartition", "CurrentLag", "current-lag");
+   ("PartitionStatus", "Topic", "topic"); ("PartitionStatus", "Partition", "partition"); ("PartitionStatus", "Owner", "owner");
+   ("PartitionStatus", "ClientID", "client_id"); ("PartitionStatus", "Status", "status"); ("PartitionStatus", "Start", "start");
+   ("PartitionStatus", "End", "end"); ("PartitionStatus", "CurrentLag", "current_lag"); ("PartitionStatus", "Complete", "complete");
+   ("ConsumerGroupStatus", "Cluster", "cluster"); ("ConsumerGroupStatus", "Group", "group");
+   ("ConsumerGroupStatus", "Status", "status"); ("ConsumerGroupStatus", "Complete", "complete");
+   ("ConsumerGroupStatus", "Partitions", "partitions"); ("ConsumerGroupStatus", "TotalPartitions", "partition_count");
+   ("ConsumerGroupStatus", "Maxlag", "maxlag"); ("ConsumerGroupStatus", "TotalLag", "totallag")]%string.
+
+Definition tag_eqb (a b : string * string * string) : bool :=
+  String.eqb (fst (fst a)) (fst (fst b)) && String.eqb (snd (fst a)) (snd (fst b)) && String.eqb (snd a) (snd b).
+Definition served_struct (n : string) : bool :=
+  existsb (String.eqb n) ["ConsumerOffset"; "ConsumerPartition"; "PartitionStatus"; "ConsumerGroupStatus"]%string.
+(* every required field is exported under its documented key, and no other field of the four structs is hidden *)
+Definition tags_ok (tbl : list (string * string * string)) : bool :=
+  forallb (fun r => existsb (tag_eqb r) tbl) required_tags &&
+  forallb (fun e => if served_struct (fst (fst e)) && String.eqb (snd e) "-" then existsb (tag_eqb e) required_tags else true) tbl.
